@@ -331,6 +331,12 @@ func genCLICase(c *core.Ctx, legacy bool) (string, []cliFile) {
 			base := []string{`[]`, `[{"op":"add","path":"/zz","value":1}]`, `[{"op":"test","path":"","value":` + doc + `}]`}[c.R.Intn(3)]
 			junk := []string{"]", "}", "]]", "} x", " ]garbage", ",", "[]", " {}", "\n1", "\n]\n", "}{", "\x00"}[c.R.Intn(12)]
 			files = append(files, cliFile{"malformed", base + junk})
+		case k == 11:
+			// a well-formed patch preceded by something an editor, a shell or a template leaves in front of a file: a
+			// byte order mark, a comment, an XSSI guard, white space that is not JSON white space - not a JSON text
+			base := []string{`[]`, `[{"op":"add","path":"/zz","value":1}]`, `[{"op":"test","path":"","value":` + doc + `}]`}[c.R.Intn(3)]
+			junk := []string{"\xef\xbb\xbf", "\xff\xfe", "\xfe\xff", "\x00", "\v", "\f", "\xc2\xa0", "\xe2\x80\xa8", "// patch\n", "# patch\n", ")]}'\n", "\xef\xbb\xbf\n", "\x1e", "---\n", "\x08"}[c.R.Intn(15)]
+			files = append(files, cliFile{"malformed", junk + base})
 		case k == 7:
 			// a patch without operations: still validates and re-encodes the document
 			files = append(files, cliFile{"valid", []string{"[]", "[ ]", " []\n", "[\n]"}[c.R.Intn(4)]})
